@@ -136,6 +136,8 @@ fn run_chunk(dir: &std::path::Path, tag: usize, cases: &[Value]) -> Vec<Outcome>
                         timed_out = true;
                         break child.wait().expect("wait");
                     }
+                    // the worker has its own time limit (above): waiting for it is not a stall
+                    crate::util::beat();
                     std::thread::sleep(std::time::Duration::from_millis(3));
                 }
             }
